@@ -328,10 +328,10 @@ func vpC04StrHoleT(n int, special bool, nterms int) {
 	vpReach("end")
 }
 
-func vpH_C04_strhole1()         { vpC04StrHole(1, false) }
+func vpH_C04_strhole1()          { vpC04StrHole(1, false) }
 func vpT_C04_strhole2_duration() { vpC04StrHoleT(2, true, 1) }
 func vpT_C04_strhole2_instants() { vpC04StrHole(2, true) }
-func vpT_C04_strhole2()         { vpC04StrHole(2, false) }
+func vpT_C04_strhole2()          { vpC04StrHole(2, false) }
 
 // type names the library uses internally for non-struct items (IRI, lists) borne by a document
 func vpH_C04_internal_type_names() {
